@@ -44,8 +44,8 @@ def _work(args):
     os.environ.setdefault("JAX_PLATFORMS", "cpu")
     try:
         import jax
-        if x64:
-            jax.config.update("jax_enable_x64", True)
+        # explicitly either way: under spawn the child re-imports the parent's main module, which may have enabled x64
+        jax.config.update("jax_enable_x64", bool(x64))
         mod = importlib.import_module(modname)
         fn = getattr(mod, fname)
         px = Proxy(seed)
